@@ -1,4 +1,5 @@
 import UtpVerif.Model.VSock
+import UtpVerif.Gen.Fns
 /-!
 # C07 — acknowledgement timeliness: delayed-ACK bound and immediate-ACK triggers
 
@@ -101,5 +102,22 @@ theorem nothing_to_ack_is_silent (v : VSock) (c : Ctx) (h0 : v.consumedButUnacke
     have : IMMEDIATE_ACK_EVERY_RMSS = 2 := by decide
     unfold immediateAckToTransmit; simp [this, h0]; omega
   exact (maybeSendAck_decision v c).2.2.2.2 hi hw ht h0
+
+/-! ### Tie 1b: the hand-written model of this function equals the definition regenerated from the Rust source
+
+`UtpVerif.Gen.Fns` is rewritten by `tools/translate_fns.py` from /repo's current source on every run; the theorems
+of this file are about the model definition, and the equality below re-attaches them to what the code says now. -/
+
+theorem generated_immediate_ack (v : VSock) :
+    UtpVerif.Gen.Fns.immediateAckToTransmit v.consumedButUnackedBytes v.ss.mss ↔ v.immediateAckToTransmit = true := by
+  unfold UtpVerif.Gen.Fns.immediateAckToTransmit VSock.immediateAckToTransmit
+  simp
+
+/-- `rx_window()` (C04's advertised window, C07's window-update trigger). -/
+theorem generated_rx_window (v : VSock) (hm : v.ss.mss < 4294967296) :
+    UtpVerif.Gen.Fns.rxWindow v.rx.remainingRxWindow v.ss.mss = v.rxWindow := by
+  unfold UtpVerif.Gen.Fns.rxWindow VSock.rxWindow
+  simp only [Nat.mod_eq_of_lt hm]
+
 
 end UtpVerif.Props.C07
